@@ -49,7 +49,7 @@ RULE = ("same real runs as C12 (all server flavours and spawn modes, local and t
         "is pending at the final quiescent point (hang detection), an execution takes no step after the quiescent point that follows "
         "the drop of its caller or the loss of its connection, every call without a reason of its own to fail (provider dropped, "
         "connection lost, sender failed by an unserialisable argument, untransmittable argument/result, handle gone, RFnOnce used) "
-        "returns a value; plus replay on M_rfn (variant cancel=false for the code as it is, cancel=true once the cancellation exists). "
+        "returns a value; plus replay on M_rfn (variant cancel=true: the tree carries the repair of F-RFN-1; the behaviour of cancel=false is a regression). "
         "Non-trivial: a call was abandoned or failed, the provider was dropped or the connection cut.")
 TRUSTED_BASE = [
     "M_rtc (lean/RemocModel/Rtc/Model.lean), see C12; liveness is judged at quiescence with method bodies making progress on their own",
@@ -70,13 +70,12 @@ LEVEL_TEXT = ("Lean 4 theorems over M_rtc for all label lists / flavours / polic
               "result sender are dropped), internal steps terminate (rfn_internal_steps_terminate, explicit measure), errors have causes "
               "and calls without one return values (rfn_error_has_cause, rfn_calls_complete), the provider task ends only for a cause "
               "(rfn_provider_stops_only_for_cause, rfn_provider_keeps_serving). Cancellation: proved for the documented behaviour "
-              "(rfn_cancel_at_next_await, rfn_cancel_enabled on the variant cancel=true); the code as it is never races the function "
-              "against result_tx.closed() (known finding F-RFN-1, kernel-checked witness rfn_f1_not_cancelled_pinned, reproduced from the "
-              "real code on every run; rfn_cancel_at_next_await_partial states what does hold).")
+              "(rfn_cancel_at_next_await, rfn_cancel_enabled on the variant cancel=true), which is the behaviour of the current tree since "
+              "the repair of defect F-RFN-1 in /repo (51fee8b: the three providers race the function against result_tx.closed()); the "
+              "code before the repair is the variant cancel=false (kernel-checked witness rfn_f1_not_cancelled_pinned, "
+              "rfn_cancel_at_next_await_partial states what held there) and is reported as a violation if it returns.")
 LEVEL_NOTE = ("Trusted: Lean kernel, M_rtc, M_rfn, harnesses/drivers. Eventual completion assumes scheduler fairness; the harness's quiescence "
-              "detector checks it on the real runs. Remote functions: the cancellation clause is partial for the code as it is (F-RFN-1: "
-              "abandoned executions run to completion; RFnMut stays busy with them, RFn keeps their permit); the check accepts either "
-              "variant and reports which one the tree matches.")
+              "detector checks it on the real runs. Remote functions are replayed against M_rfn with cancel=true (F-RFN-1 repaired).")
 TECHNIQUE = "Lean 4 invariant proofs over an LTS model + trace acceptor and execution-log predicates against the real crate"
 DESIGN_REF = "DESIGN.md section 5, C19"
 
